@@ -267,8 +267,8 @@ def removeUnpaintedShapes : DocM Unit := do
   for (u, shapes) in l do
     match shapes with
     | [sh] =>
-      -- the children of a clipPath are geometry: what they are painted with is irrelevant
-      if (Node.ancestors root0 u).any (fun a => a.localTag == "clipPath") then pure ()
+      -- the children of a clipPath are geometry (their paint is irrelevant), a template in defs is painted by its use elements
+      if (Node.ancestors root0 u).any (fun a => a.localTag == "clipPath" || a.localTag == "defs") then pure ()
       else if !(← mightPaintM sh) then remove := remove ++ [u]
     | _ => fail .valueError
   for u in remove do
